@@ -183,6 +183,7 @@ def main(tier, seed):
     r10.c03_eigh_mixed_ties(rep, ap, rng, tier)
     import r12
     r12.c03_reduce_rules(rep, ap, rng, tier, PID)
+    r12.c03_trace_rule(rep, ap, rng, tier, PID)
     return rep.finish()
 
 
